@@ -1,16 +1,22 @@
 """C08 — purging tombstones is invisible and deletes stay deleted.
 
 Local clauses (every reachable set): decided on MC_OrswotOps, edge-complete replay on the real set.
-Global clause (cluster that purges at arbitrary moments converges like one that never purges):
-decided on the Cluster model, see checks/cluster.py (added when that model is bound)."""
+Global clause (a cluster that purges at arbitrary moments converges to the same live documents as one
+that never purges, whenever every operation reaches every replica within less than the forgiveness
+period): decided on Cluster.tla with global time, bounded clock skew, Purge enabled at any moment and the
+timeliness guard, exhaustively for a small config and by simulation + real-node replay beyond."""
 import vlib
-from checks import orswot_ops
+from checks import cluster_model, orswot_ops
 
 ASSUMPTIONS = [
     "local clauses: every reachable set of the bounded universes in coverage.configs; purge enabled in every state",
     "'not newer than the purged delete' is probed for every stamp of the universe from the deleting node, on every key, "
     "through will_apply and both mutators on every source",
     "model time unit = 3600 s / F, the real FORGIVENESS_PERIOD (measured by behaviour: coverage.configs[].real_forgiveness_period_s)",
+    "global clause: time advances only while every operation some node has not yet been PRESENTED (that very operation handed to its keyspace actor "
+    "directly, by batch or by a repair half - never inferred) stays younger than F; node clocks run at most MaxSkew ahead; this under-approximates "
+    "'timely' and therefore cannot raise a false alarm",
+    "global clause expectation = last-writer-wins over all issued operations, i.e. the outcome of the never-purging cluster",
 ]
 
 
@@ -19,8 +25,25 @@ def run(ctx):
     cov = orswot_ops.judge(ctx, results, "C08", [
         ("effective_purges", "no purge edge removed a tombstone"),
         ("refused_probes", "no 'still refused' probe was evaluated")])
+    glob = cluster_model.run_all(ctx, "C08")
+    gcov = cluster_model.judge(ctx, glob, {"C01", "C02", "C08"})
+    purges = sum(r["rep"]["step_kinds"].get("purge", 0) for r in glob if r["kind"] == "simulated")
+    ticks = sum(r["rep"]["step_kinds"].get("time", 0) for r in glob if r["kind"] == "simulated")
+    if purges == 0 or ticks == 0:
+        raise vlib.ToolError("vacuous global run: no purge / no time step in the replayed behaviours")
+    cov["states"] += gcov["states"]
+    cov["transitions"] += gcov["transitions"]
+    cov["traces_validated_against_impl"] += gcov["traces_validated_against_impl"]
+    cov["samples"] = cov["samples"][:3] + gcov["samples"][:2]
+    cov["global"] = {k: gcov[k] for k in ("exhaustive_configs", "simulated_configs", "drift_behaviours")}
+    cov["global"]["purge_steps_replayed"] = purges
+    cov["global"]["time_steps_replayed"] = ticks
     return vlib.finish(ctx, "model_checking", cov, ASSUMPTIONS)
 
 
 def replay(ctx, path):
+    v = vlib.load_json(path)
+    if "behaviour" in v:
+        from checks import c01
+        return c01.replay(ctx, path)
     return orswot_ops.replay_file(ctx, path, "C08")
